@@ -1,11 +1,14 @@
 #![allow(dead_code)]
 pub mod checks;
+mod cfg;
 mod common;
 mod doc;
 mod form;
 mod gen;
 mod hdr;
 mod lang;
+mod langgen;
+mod langdoc;
 mod meta;
 mod qml;
 mod translate;
